@@ -1,11 +1,11 @@
 (** Proofs about Model/Time64.v: the binary64 round trips, through Flocq's
     specification of Coq's primitive floats ([Prim2B], [Bmult_correct], ...),
-    the standard model of rounding ([relative_error_N_FLT_ex]) and [interval]
-    for the accumulated error terms. *)
+    the standard model of rounding ([relative_error_N_FLT_ex]) and explicit
+    magnitude bookkeeping in powers of two (no [interval]: keeps the dependency
+    closure - Print Assumptions, coqchk - small). *)
 From Coq Require Import ZArith Reals Lra Lia PrimFloat Uint63 FloatOps List.
 From Flocq Require Import Core Relative.
 From Flocq Require Import IEEE754.BinarySingleNaN IEEE754.PrimFloat.
-From Interval Require Import Tactic.
 From Dino Require Import Model.Time64.
 Local Open Scope R_scope.
 
@@ -118,72 +118,140 @@ Lemma fin_60 : fin f60. Proof. apply fin_SF. vm_compute. reflexivity. Qed.
 Lemma fin_1 : fin 1%float. Proof. apply fin_SF. vm_compute. reflexivity. Qed.
 
 Definition u53 : R := / 9007199254740992.
-Definition tiny : R := / 1606938044258990275541962092341162602522202993782792835301376.   (* 2^-200 *)
-Definition big : R := 1606938044258990275541962092341162602522202993782792835301376.      (* 2^200 *)
-
 Lemma u53_eq : / 2 * bpow radix2 (- 53 + 1) = u53.
 Proof. unfold u53. simpl. lra. Qed.
-Lemma tiny_eq : bpow radix2 (-200) = tiny. Proof. reflexivity. Qed.
-Lemma big_eq : bpow radix2 200 = big. Proof. reflexivity. Qed.
-Lemma big_le_BIG : big <= BIG.
-Proof. rewrite <- big_eq. apply bpow_le. lia. Qed.
 
-(** standard model of rounding to nearest, for arguments [IZR s * y] with [y]
-    away from the subnormal range (covers s = 0) *)
-Lemma rnd_rel_Zmul s y : tiny <= Rabs y ->
-  exists e, Rabs e <= u53 /\ rnd (IZR s * y) = IZR s * y * (1 + e).
+(** magnitude bookkeeping: [Bnd a b x] is 2^a <= |x| <= 2^b *)
+Definition Bnd (a b : Z) (x : R) : Prop := bpow radix2 a <= Rabs x <= bpow radix2 b.
+Definition UB (b : Z) (x : R) : Prop := Rabs x <= bpow radix2 b.
+
+Lemma Bnd_mul a1 b1 a2 b2 x y : Bnd a1 b1 x -> Bnd a2 b2 y -> Bnd (a1 + a2) (b1 + b2) (x * y).
 Proof.
-  intros Hy. destruct (Z.eq_dec s 0) as [->|Hs].
-  - exists 0. split; [unfold u53; rewrite Rabs_R0; lra|].
-    rewrite Rmult_0_l. unfold rnd. rewrite round_0 by auto with typeclass_instances. ring.
-  - rewrite <- u53_eq. apply (relative_error_N_FLT_ex radix2 (-1074) 53 p53 (fun x => negb (Z.even x))).
-    apply Rle_trans with (bpow radix2 (-200)); [apply bpow_le; lia|]. rewrite tiny_eq.
-    rewrite Rabs_mult. apply Rle_trans with (1 * Rabs y); [lra|].
-    apply Rmult_le_compat_r; [apply Rabs_pos|]. rewrite <- abs_IZR. apply IZR_le. lia.
+  unfold Bnd. intros [H1 H2] [H3 H4]. rewrite Rabs_mult, !bpow_plus.
+  split; apply Rmult_le_compat; try apply bpow_ge_0; try apply Rabs_pos; assumption.
 Qed.
 
-Lemma IZR_bounds s k : (Z.abs s < k)%Z -> - IZR k <= IZR s <= IZR k.
-Proof. intros H. split; [rewrite <- opp_IZR|]; apply IZR_le; lia. Qed.
+Lemma Bnd_inv a b x : Bnd a b x -> Bnd (- b) (- a) (/ x).
+Proof.
+  unfold Bnd. intros [H1 H2].
+  assert (Hp : 0 < Rabs x) by (apply Rlt_le_trans with (2 := H1); apply bpow_gt_0).
+  assert (Hx : x <> 0) by (intro E; rewrite E, Rabs_R0 in Hp; lra).
+  rewrite Rabs_inv. rewrite !bpow_opp. split.
+  - apply Rinv_le_contravar; assumption.
+  - apply Rinv_le_contravar; [apply bpow_gt_0 | assumption].
+Qed.
+
+Lemma Bnd_div a1 b1 a2 b2 x y : Bnd a1 b1 x -> Bnd a2 b2 y -> Bnd (a1 + - b2) (b1 + - a2) (x / y).
+Proof. intros H1 H2. unfold Rdiv. apply Bnd_mul; [exact H1 | now apply Bnd_inv]. Qed.
+
+Lemma Bnd_1pe e : Rabs e <= u53 -> Bnd (-1) 1 (1 + e).
+Proof.
+  intros H. apply Rabs_le_inv in H. unfold u53 in H. unfold Bnd.
+  rewrite Rabs_pos_eq by lra. simpl. lra.
+Qed.
+
+Lemma Bnd_pos a b (x : R) : 0 < x -> bpow radix2 a <= x <= bpow radix2 b -> Bnd a b x.
+Proof. intros Hx H. unfold Bnd. rewrite Rabs_pos_eq by lra. exact H. Qed.
+
+Lemma Bnd_1000 : Bnd 9 10 1000. Proof. apply Bnd_pos; [lra | simpl; lra]. Qed.
+Lemma Bnd_3600 : Bnd 11 12 3600. Proof. apply Bnd_pos; [lra | simpl; lra]. Qed.
+Lemma Bnd_60 : Bnd 5 6 60. Proof. apply Bnd_pos; [lra | simpl; lra]. Qed.
+
+Lemma UB_Z s k : (0 <= k)%Z -> (Z.abs s < 2 ^ k)%Z -> UB k (IZR s).
+Proof.
+  intros Hk H. unfold UB. rewrite <- abs_IZR, <- (IZR_Zpower radix2 k Hk). apply IZR_le. simpl. lia.
+Qed.
+
+Ltac bnd := lazymatch goal with
+  | |- Bnd _ _ (_ * _) => eapply Bnd_mul; bnd
+  | |- Bnd _ _ (_ / _) => eapply Bnd_div; bnd
+  | |- Bnd _ _ (/ _) => eapply Bnd_inv; bnd
+  | |- Bnd _ _ (1 + _) => eapply Bnd_1pe; eassumption
+  | |- Bnd _ _ 1000 => exact Bnd_1000
+  | |- Bnd _ _ 3600 => exact Bnd_3600
+  | |- Bnd _ _ 60 => exact Bnd_60
+  | |- _ => eassumption
+  end.
+
+(** one rounding step on an argument of the form [IZR s * y]: no overflow, the
+    standard model holds (also for s = 0), and the magnitude bookkeeping of the
+    new factor *)
+Lemma step s y a b :
+  UB 40 (IZR s) -> Bnd a b y -> (-1022 <= a)%Z -> (b <= 900)%Z ->
+  Rabs (IZR s * y) <= BIG /\
+  exists e, Rabs e <= u53 /\ rnd (IZR s * y) = IZR s * y * (1 + e) /\ Bnd (a + -1) (b + 1) (y * (1 + e)).
+Proof.
+  intros HS Hy Ha Hb. split.
+  - unfold BIG. rewrite Rabs_mult. apply Rle_trans with (bpow radix2 40 * bpow radix2 b).
+    + apply Rmult_le_compat; try apply Rabs_pos; [exact HS | apply Hy].
+    + rewrite <- bpow_plus. apply bpow_le. lia.
+  - assert (E : exists e, Rabs e <= u53 /\ rnd (IZR s * y) = IZR s * y * (1 + e)).
+    { destruct (Z.eq_dec s 0) as [->|Hs].
+      - exists 0. split; [unfold u53; rewrite Rabs_R0; lra|].
+        rewrite Rmult_0_l. unfold rnd. rewrite round_0 by auto with typeclass_instances. ring.
+      - rewrite <- u53_eq. apply (relative_error_N_FLT_ex radix2 (-1074) 53 p53 (fun x => negb (Z.even x))).
+        apply Rle_trans with (bpow radix2 a); [apply bpow_le; lia|].
+        apply Rle_trans with (1 := proj1 Hy).
+        rewrite Rabs_mult. apply Rle_trans with (1 * Rabs y); [lra|].
+        apply Rmult_le_compat_r; [apply Rabs_pos|]. rewrite <- abs_IZR. apply IZR_le. lia. }
+    destruct E as (e & He & E). exists e. split; [exact He|]. split; [exact E|].
+    apply Bnd_mul; [exact Hy | now apply Bnd_1pe].
+Qed.
+
+(** accumulated relative error of a product of (1 + e_i) *)
+Lemma prod_err P e a : Rabs (P - 1) <= a -> Rabs e <= u53 -> Rabs (P * (1 + e) - 1) <= a + u53 + a * u53.
+Proof.
+  intros HP He. replace (P * (1 + e) - 1) with ((P - 1) + e + (P - 1) * e) by ring.
+  apply Rle_trans with (1 := Rabs_triang _ _).
+  apply Rplus_le_compat; [apply Rle_trans with (1 := Rabs_triang _ _); now apply Rplus_le_compat|].
+  rewrite Rabs_mult. apply Rmult_le_compat; try apply Rabs_pos; assumption.
+Qed.
+
+Lemma prod_err1 e : Rabs e <= u53 -> Rabs ((1 + e) - 1) <= u53.
+Proof. intros H. now replace (1 + e - 1) with e by ring. Qed.
+
+Lemma err_scaled S x B c : Rabs S <= B -> Rabs x <= c -> 0 <= B -> Rabs (S * x) <= B * c.
+Proof. intros HS Hx HB. rewrite Rabs_mult. apply Rmult_le_compat; try apply Rabs_pos; assumption. Qed.
 
 (** admissible time scales: finite binary64 numbers in [2^-100, 2^100] seconds *)
 Definition T_ok (T : pfloat) : Prop := fin T /\ bpow radix2 (-100) <= FR T <= bpow radix2 100.
 
-Lemma T_ok_num T : T_ok T -> / 1267650600228229401496703205376 <= FR T <= 1267650600228229401496703205376.
-Proof. intros (_ & H). exact H. Qed.
-
-Ltac le_BIG := apply Rle_trans with (2 := big_le_BIG); unfold big.
+Lemma T_ok_Bnd T : T_ok T -> Bnd (-100) 100 (FR T) /\ FR T <> 0.
+Proof.
+  intros (_ & H). assert (0 < FR T) by (apply Rlt_le_trans with (2 := proj1 H); apply bpow_gt_0).
+  split; [now apply Bnd_pos | lra].
+Qed.
 
 Theorem timedelta_roundtrip (T : pfloat) (s : Z) :
   T_ok T -> (Z.abs s < 2 ^ 40)%Z -> td_roundtrip T s = s.
 Proof.
-  intros HT Hs. pose proof (T_ok_num T HT) as Ht. destruct HT as (FT & _).
+  intros HT Hs. destruct (T_ok_Bnd T HT) as (Bt & Ht0). destruct HT as (FT & _).
   unfold td_roundtrip, dim_td, snap_ms, dim_s, nondim_td.
   destruct (of_Z_R s) as (Es & Fs); [lia|].
-  pose proof (IZR_bounds s (2 ^ 40) Hs) as HS. change (IZR (2 ^ 40)) with 1099511627776 in HS.
+  pose proof (UB_Z s 40 ltac:(lia) Hs) as HS.
   set (t := FR T) in *. set (S := IZR s) in *.
-  assert (Ht0 : t <> 0) by lra.
   (* nondimensionalize: fl(s / T) *)
-  destruct (div_R (of_Z s) T Fs Ht0) as (E1 & F1).
-  { fold t. rewrite Es. fold S. le_BIG. interval. }
-  rewrite Es in E1. fold t S in E1.
-  destruct (rnd_rel_Zmul s (/ t)) as (e1 & He1 & R1). { unfold tiny. interval. }
-  fold S in R1. change (S * / t) with (S / t) in R1. rewrite R1 in E1. clear R1.
+  eassert (B1 : Bnd _ _ (/ t)) by bnd.
+  destruct (step s (/ t) _ _ HS B1) as (G1 & e1 & He1 & R1 & B1'); [lia | lia |].
+  fold S in G1, R1. change (S * / t) with (S / t) in G1, R1.
+  destruct (div_R (of_Z s) T Fs Ht0) as (E1 & F1). { fold t. rewrite Es. exact G1. }
+  rewrite Es in E1. fold t S in E1. rewrite R1 in E1. clear R1 G1 B1 B1'.
   set (nd := (of_Z s / T)%float) in *.
   (* dimensionalize: fl(nd * T) *)
   assert (A2 : FR nd * t = S * (1 + e1)) by (rewrite E1; field; exact Ht0).
-  destruct (mul_R nd T F1 FT) as (E2 & F2).
-  { fold t. rewrite A2. le_BIG. interval. }
-  fold t in E2. rewrite A2 in E2.
-  destruct (rnd_rel_Zmul s (1 + e1)) as (e2 & He2 & R2). { unfold tiny. unfold u53 in He1. interval. }
-  fold S in R2. rewrite R2 in E2. clear R2.
+  eassert (B2 : Bnd _ _ (1 + e1)) by bnd.
+  destruct (step s (1 + e1) _ _ HS B2) as (G2 & e2 & He2 & R2 & B2'); [lia | lia |].
+  fold S in G2, R2.
+  destruct (mul_R nd T F1 FT) as (E2 & F2). { fold t. rewrite A2. exact G2. }
+  fold t in E2. rewrite A2, R2 in E2. clear R2 G2 B2 B2' A2.
   set (d := (nd * T)%float) in *.
   (* dt * 1e3 *)
   assert (A3 : FR d * FR f1000 = S * ((1 + e1) * (1 + e2) * 1000)) by (rewrite E2, FR_1000; ring).
-  destruct (mul_R d f1000 F2 fin_1000) as (E3 & F3).
-  { rewrite A3. le_BIG. unfold u53 in *. interval. }
-  rewrite A3 in E3.
-  destruct (rnd_rel_Zmul s ((1 + e1) * (1 + e2) * 1000)) as (e3 & He3 & R3). { unfold tiny. unfold u53 in *. interval. }
-  fold S in R3. rewrite R3 in E3. clear R3.
+  eassert (B3 : Bnd _ _ ((1 + e1) * (1 + e2) * 1000)) by bnd.
+  destruct (step s _ _ _ HS B3) as (G3 & e3 & He3 & R3 & B3'); [lia | lia |].
+  fold S in G3, R3.
+  destruct (mul_R d f1000 F2 fin_1000) as (E3 & F3). { rewrite A3. exact G3. }
+  rewrite A3, R3 in E3. clear R3 G3 B3 B3' A3.
   set (m := (d * f1000)%float) in *.
   (* np.round *)
   destruct (rint_R m F3) as (E4 & F4).
@@ -191,14 +259,19 @@ Proof.
   { apply Znearest_imp. rewrite E3, mult_IZR. fold S.
     replace (S * ((1 + e1) * (1 + e2) * 1000) * (1 + e3) - 1000 * S)
       with (S * (1000 * ((1 + e1) * (1 + e2) * (1 + e3) - 1))) by ring.
-    unfold u53 in *. interval with (i_prec 200). }
+    pose proof (prod_err _ _ _ (prod_err _ _ _ (prod_err1 e1 He1) He2) He3) as P3.
+    assert (HS' : Rabs S <= 1099511627776) by (exact HS).
+    match type of P3 with _ <= ?a => apply Rle_lt_trans with (1099511627776 * (1000 * a)) end.
+    - apply err_scaled; [exact HS' | | lra].
+      rewrite Rabs_mult, (Rabs_pos_eq 1000) by lra. apply Rmult_le_compat_l; [lra | exact P3].
+    - unfold u53. lra. }
   rewrite N4 in E4.
   set (r := rint m) in *.
   (* / 1e3 : exact *)
   assert (A5 : FR r / FR f1000 = S) by (rewrite E4, FR_1000, mult_IZR; fold S; field).
   destruct (div_R r f1000 F4) as (E5 & F5).
   { rewrite FR_1000. lra. }
-  { rewrite A5. le_BIG. interval. }
+  { rewrite A5. unfold BIG. apply Rle_trans with (1 := HS). apply bpow_le. lia. }
   rewrite A5 in E5. unfold S in E5. rewrite rnd_IZR in E5 by lia.
   (* truncation *)
   rewrite trunc_R, E5. apply Ztrunc_IZR.
@@ -207,59 +280,61 @@ Qed.
 Theorem datetime_roundtrip_minutes (T : pfloat) (M : Z) :
   T_ok T -> (Z.abs M < 2 ^ 40)%Z -> dt_roundtrip T M = M.
 Proof.
-  intros HT HM. pose proof (T_ok_num T HT) as Ht. destruct HT as (FT & _).
+  intros HT HM. destruct (T_ok_Bnd T HT) as (Bt & Ht0). destruct HT as (FT & _).
   unfold dt_roundtrip, dim_dt, dim_min, nondim_dt, nondim_hours, hours_of_minutes.
   destruct (of_Z_R M) as (Es & Fs); [lia|].
-  pose proof (IZR_bounds M (2 ^ 40) HM) as HS. change (IZR (2 ^ 40)) with 1099511627776 in HS.
+  pose proof (UB_Z M 40 ltac:(lia) HM) as HS.
+  pose proof (UB_Z 1 40 ltac:(lia) ltac:(reflexivity)) as H1.
   set (t := FR T) in *. set (S := IZR M) in *.
-  assert (Ht0 : t <> 0) by lra.
   (* c_min = fl(1 / 60) *)
+  eassert (B0 : Bnd _ _ (/ 60)) by bnd.
+  destruct (step 1 (/ 60) _ _ H1 B0) as (G0 & e0 & He0 & R0 & _); [lia | lia |].
+  replace (1 * / 60) with (1 / 60) in G0, R0 by field.
   destruct (div_R 1%float f60 fin_1) as (E0 & F0).
   { rewrite FR_60. lra. }
-  { rewrite FR_1, FR_60. le_BIG. interval. }
-  rewrite FR_1, FR_60 in E0.
-  destruct (rnd_rel_Zmul 1 (/ 60)) as (e0 & He0 & R0). { unfold tiny. interval. }
-  replace (1 * / 60) with (1 / 60) in R0 by field. rewrite R0 in E0. clear R0.
+  { rewrite FR_1, FR_60. exact G0. }
+  rewrite FR_1, FR_60, R0 in E0. clear R0 G0 B0.
   fold c_min in E0, F0.
   (* hours = fl(M / 60) *)
+  eassert (B1 : Bnd _ _ (/ 60)) by bnd.
+  destruct (step M (/ 60) _ _ HS B1) as (G1 & e1 & He1 & R1 & _); [lia | lia |].
+  fold S in G1, R1. change (S * / 60) with (S / 60) in G1, R1.
   destruct (div_R (of_Z M) f60 Fs) as (E1 & F1).
   { rewrite FR_60. lra. }
-  { rewrite Es, FR_60. fold S. le_BIG. interval. }
-  rewrite Es, FR_60 in E1. fold S in E1.
-  destruct (rnd_rel_Zmul M (/ 60)) as (e1 & He1 & R1). { unfold tiny. interval. }
-  fold S in R1. change (S * / 60) with (S / 60) in R1. rewrite R1 in E1. clear R1.
+  { rewrite Es, FR_60. fold S. exact G1. }
+  rewrite Es, FR_60 in E1. fold S in E1. rewrite R1 in E1. clear R1 G1 B1.
   set (h := (of_Z M / f60)%float) in *.
   (* fl(h / T) *)
   assert (A2 : FR h / t = S * (/ 60 * (1 + e1) / t)) by (rewrite E1; field; exact Ht0).
-  destruct (div_R h T F1 Ht0) as (E2 & F2).
-  { fold t. rewrite A2. le_BIG. unfold u53 in *. interval. }
-  fold t in E2. rewrite A2 in E2.
-  destruct (rnd_rel_Zmul M (/ 60 * (1 + e1) / t)) as (e2 & He2 & R2). { unfold tiny, u53 in *. interval. }
-  fold S in R2. rewrite R2 in E2. clear R2.
+  eassert (B2 : Bnd _ _ (/ 60 * (1 + e1) / t)) by bnd.
+  destruct (step M _ _ _ HS B2) as (G2 & e2 & He2 & R2 & _); [lia | lia |].
+  fold S in G2, R2.
+  destruct (div_R h T F1 Ht0) as (E2 & F2). { fold t. rewrite A2. exact G2. }
+  fold t in E2. rewrite A2, R2 in E2. clear R2 G2 B2 A2.
   set (x := (h / T)%float) in *.
   (* fl(x * 3600) *)
   assert (A3 : FR x * FR f3600 = S * (/ 60 * (1 + e1) / t * (1 + e2) * 3600)) by (rewrite E2, FR_3600; ring).
-  destruct (mul_R x f3600 F2 fin_3600) as (E3 & F3).
-  { rewrite A3. le_BIG. unfold u53 in *. interval. }
-  rewrite A3 in E3.
-  destruct (rnd_rel_Zmul M (/ 60 * (1 + e1) / t * (1 + e2) * 3600)) as (e3 & He3 & R3). { unfold tiny, u53 in *. interval. }
-  fold S in R3. rewrite R3 in E3. clear R3.
+  eassert (B3 : Bnd _ _ (/ 60 * (1 + e1) / t * (1 + e2) * 3600)) by bnd.
+  destruct (step M _ _ _ HS B3) as (G3 & e3 & He3 & R3 & _); [lia | lia |].
+  fold S in G3, R3.
+  destruct (mul_R x f3600 F2 fin_3600) as (E3 & F3). { rewrite A3. exact G3. }
+  rewrite A3, R3 in E3. clear R3 G3 B3 A3.
   set (nd := (x * f3600)%float) in *.
   (* fl(nd * T) *)
   assert (A4 : FR nd * t = S * (60 * (1 + e1) * (1 + e2) * (1 + e3))) by (rewrite E3; field; exact Ht0).
-  destruct (mul_R nd T F3 FT) as (E4 & F4).
-  { fold t. rewrite A4. le_BIG. unfold u53 in *. interval. }
-  fold t in E4. rewrite A4 in E4.
-  destruct (rnd_rel_Zmul M (60 * (1 + e1) * (1 + e2) * (1 + e3))) as (e4 & He4 & R4). { unfold tiny, u53 in *. interval. }
-  fold S in R4. rewrite R4 in E4. clear R4.
+  eassert (B4 : Bnd _ _ (60 * (1 + e1) * (1 + e2) * (1 + e3))) by bnd.
+  destruct (step M _ _ _ HS B4) as (G4 & e4 & He4 & R4 & _); [lia | lia |].
+  fold S in G4, R4.
+  destruct (mul_R nd T F3 FT) as (E4 & F4). { fold t. rewrite A4. exact G4. }
+  fold t in E4. rewrite A4, R4 in E4. clear R4 G4 B4 A4.
   set (y := (nd * T)%float) in *.
   (* fl(y * c_min) *)
   assert (A5 : FR y * FR c_min = S * ((1 + e1) * (1 + e2) * (1 + e3) * (1 + e4) * (1 + e0))) by (rewrite E4, E0; field).
-  destruct (mul_R y c_min F4 F0) as (E5 & F5).
-  { rewrite A5. le_BIG. unfold u53 in *. interval. }
-  rewrite A5 in E5.
-  destruct (rnd_rel_Zmul M ((1 + e1) * (1 + e2) * (1 + e3) * (1 + e4) * (1 + e0))) as (e5 & He5 & R5). { unfold tiny, u53 in *. interval. }
-  fold S in R5. rewrite R5 in E5. clear R5.
+  eassert (B5 : Bnd _ _ ((1 + e1) * (1 + e2) * (1 + e3) * (1 + e4) * (1 + e0))) by bnd.
+  destruct (step M _ _ _ HS B5) as (G5 & e5 & He5 & R5 & _); [lia | lia |].
+  fold S in G5, R5.
+  destruct (mul_R y c_min F4 F0) as (E5 & F5). { rewrite A5. exact G5. }
+  rewrite A5, R5 in E5. clear R5 G5 B5 A5.
   set (mm := (y * c_min)%float) in *.
   (* np.round, astype(int) *)
   destruct (rint_R mm F5) as (E6 & F6).
@@ -267,7 +342,12 @@ Proof.
   { apply Znearest_imp. rewrite E5. fold S.
     replace (S * ((1 + e1) * (1 + e2) * (1 + e3) * (1 + e4) * (1 + e0)) * (1 + e5) - S)
       with (S * ((1 + e1) * (1 + e2) * (1 + e3) * (1 + e4) * (1 + e0) * (1 + e5) - 1)) by ring.
-    unfold u53 in *. interval with (i_prec 200). }
+    pose proof (prod_err _ _ _ (prod_err _ _ _ (prod_err _ _ _ (prod_err _ _ _ (prod_err _ _ _
+                  (prod_err1 e1 He1) He2) He3) He4) He0) He5) as P6.
+    assert (HS' : Rabs S <= 1099511627776) by (exact HS).
+    match type of P6 with _ <= ?a => apply Rle_lt_trans with (1099511627776 * a) end.
+    - apply err_scaled; [exact HS' | exact P6 | lra].
+    - unfold u53. lra. }
   rewrite N6 in E6.
   rewrite trunc_R, E6. apply Ztrunc_IZR.
 Qed.
